@@ -245,6 +245,17 @@ def heater(plat, c, l):
             exp = "Heating" if bool(rc < rr) else ("Cooling" if bool(rc > rr) else "Idle")
         sx.check(op == exp, "htr.operation", lambda: f"op={op} expected={exp}")
         sx.check(op in ("Heating", "Cooling", "Idle"), "htr.operation-domain")
+        # the unit is then changed on the spa side (keypad / another client): a status update patches TempUnits
+        tu = acc["TempUnits"]
+        nb = sx.bytes_("new_units_byte", 1)
+        s.replace_status_block_segment(tu.pos, nb)
+        is_c2 = bool(_is_c(s))
+        sx.observe("unit_c_after", is_c2)
+        sx.check(h.temperature_unit == ("°C" if is_c2 else "°F"), "htr.unit-symbol-follows-update")
+        sx.check((h.min_temp, h.max_temp) == ((15, 40) if is_c2 else (59, 104)), "htr.limits-follow-update",
+                 lambda: f"{h.min_temp},{h.max_temp} with unit C={is_c2}")
+        rt2 = _raw(s.status_block, acc["SetpointG"])
+        sx.check_same(h.target_temperature, (rt2 / 18.0) if is_c2 else ((rt2 + 320) / 10.0), "htr.target-follows-update")
     return scenario
 
 
